@@ -8,8 +8,8 @@ import (
 	"os"
 	"testing"
 
-	"verif.local/simrt"
 	"github.com/rulego/streamsql/window"
+	"verif.local/simrt"
 )
 
 var (
